@@ -1733,30 +1733,38 @@ def nest_kind(j):
     return "plain" if "t" in j else ("weighted:none" if j.get("w") is None else "weighted")
 
 
-def select_contract(old, cur, mask, rb):
+def select_contract(old, cur, mask, rb, fill="ones"):
     """is the call inside the documented contract of `revert(subset)` — computed from the shapes alone: same shapes, at least one
-    axis, exactly one mask entry per index of the axis the mask is aligned on, the same kind of weight on both sides"""
+    axis, exactly one mask entry per index of the axis the mask is aligned on.  With the old rule of `_select` (`fill="other"`) the two sides
+    also had to be of the same kind (a side without weight took the other side's weight: not a selection)."""
     so, sc = nest_shape(old.get("t", old.get("v"))), nest_shape(cur.get("t", cur.get("v")))
-    if so != sc or not so or nest_kind(old) != nest_kind(cur):
+    if so != sc or not so or (fill != "ones" and nest_kind(old) != nest_kind(cur)):
         return False
     return so[0 if rb else -1] == len(mask)
 
 
+def _ones_like(w):
+    return [_ones_like(x) for x in w] if isinstance(w, list) else 1
+
+
 def select_reference(old, cur, mask, rb):
     """the documented result inside the contract, computed on nested lists: right-broadcasting -> row i from the forked side where
-    mask[i]; right_broadcasting=False -> entry i of every innermost vector"""
+    mask[i]; right_broadcasting=False -> entry i of every innermost vector; a side without weights counts as fully weighted (weight 1
+    everywhere) as soon as the other side has weights.  Returned in the form of `nval_json` ({"t"} | {"v", "w"})."""
     def sel(o, c, depth):
         if depth == 0:
             return [o[i] if mask[i] else c[i] for i in range(len(mask))]
         return [sel(a, b, depth - 1) for a, b in zip(o, c)]
-    out = {}
-    for key in ("t", "v", "w"):
-        if old.get(key) is not None:
-            d = 0 if rb else len(nest_shape(old[key])) - 1
-            out[key] = sel(old[key], cur[key], d)
-        elif key in old:
-            out[key] = None
-    return out
+    ov, cv = old.get("t", old.get("v")), cur.get("t", cur.get("v"))
+    d = 0 if rb else len(nest_shape(ov)) - 1
+    if "t" in old and "t" in cur:
+        return {"t": sel(ov, cv, d)}
+    ow, cw = old.get("w"), cur.get("w")
+    if ow is None and cw is None:
+        return {"v": sel(ov, cv, d), "w": None}
+    ow = _ones_like(cw) if ow is None else ow
+    cw = _ones_like(ow) if cw is None else cw
+    return {"v": sel(ov, cv, d), "w": sel(ow, cw, d)}
 
 
 def select_cases(rng):
@@ -1823,6 +1831,71 @@ SELECT_SIG = "partial-revert:nd-selection-differs-from-documented-rows"
 ONE_SIDED_SIG = "partial-revert:side-without-weight-takes-the-other-sides-weight"
 
 
+def detect_select_fill_variant():
+    """What does `_select` (state.py) give a side WITHOUT weights when the other side has some?
+
+    Returns `(fill, detail)`: `"ones"`  — all ones of the other side's weight (`torch.ones_like(...)`: "a side that carries no weights is fully
+                                          weighted"; the code since the repair; Coq: nselect / nselect_torch),
+                              `"other"` — the OTHER side's weight (the code before; finding `ONE_SIDED_SIG`; Coq: nselect_old / nselect_torch_old),
+                              `None`    — not recognised (fail closed).
+    Two independent views that have to agree:
+      (a) the source of `_select`: exactly two conditional assignments `X = A.weight if A.weight is not None else E`; in both `E` is
+          `torch.ones_like(B.weight)`, or in both `E` is `B.weight` (B the other side);
+      (b) probes on a real State: x = WeightedTensor([5,7]) -> WeightedTensor([1,2],[F,T]), individual 0 rejected: weight [T,T] or [F,T];
+          x = [1,2] (plain) -> WeightedTensor([10,20],[0,3]), individual 1 rejected: weight [0,1] or [0,3]."""
+    import ast
+    import inspect
+    import textwrap
+    detail = dict(source=None, probe_none=None, probe_plain=None)
+    try:
+        from leaspy.variables import state as state_mod
+        fn = ast.parse(textwrap.dedent(inspect.getsource(state_mod._select))).body[0]
+        kinds = []
+        for n in ast.walk(fn):
+            if isinstance(n, ast.Assign) and isinstance(n.value, ast.IfExp):
+                e = n.value
+                body, test, other = ast.unparse(e.body), ast.unparse(e.test), e.orelse
+                if not body.endswith(".weight"):
+                    continue                # `old_w = old_v if isinstance(old_v, WeightedTensor) else WeightedTensor(old_v)`: not about weights
+                if test != f"{body} is not None":
+                    kinds.append("?")
+                    continue
+                side = body[:-len(".weight")]
+                o = ast.unparse(other)
+                if isinstance(other, ast.Call) and ast.unparse(other.func) == "torch.ones_like" and len(other.args) == 1 and not other.keywords \
+                        and ast.unparse(other.args[0]).endswith(".weight") and ast.unparse(other.args[0]) != body:
+                    kinds.append("ones")
+                elif o.endswith(".weight") and o != body and isinstance(other, ast.Attribute):
+                    kinds.append("other")
+                else:
+                    kinds.append("?")
+        detail["source_assignments"] = kinds
+        if len(kinds) == 2 and kinds[0] == kinds[1] and kinds[0] in ("ones", "other"):
+            detail["source"] = kinds[0]
+    except Exception as e:  # noqa
+        detail["source_error"] = f"{type(e).__name__}: {e}"
+    try:
+        c1 = dict(old={"v": [5, 7], "w": None, "wdt": None}, cur={"v": [1, 2], "w": [0, 1], "wdt": "bool"}, mask=[True, False], rb=True)
+        o1, _, _ = exec_select(c1)
+        detail["probe_none_value"] = o1
+        if o1 is not None and o1.get("v") == [5, 2]:
+            detail["probe_none"] = {(1, 1): "ones", (0, 1): "other"}.get(tuple(o1.get("w") or ()))
+        c2 = dict(old={"t": [1, 2]}, cur={"v": [10, 20], "w": [0, 3], "wdt": "int64"}, mask=[False, True], rb=True)
+        o2, _, _ = exec_select(c2)
+        detail["probe_plain_value"] = o2
+        if o2 is not None and o2.get("v") == [10, 2]:
+            detail["probe_plain"] = {(0, 1): "ones", (0, 3): "other"}.get(tuple(o2.get("w") or ()))
+    except Exception as e:  # noqa
+        detail["probe_error"] = f"{type(e).__name__}: {e}"
+    views = (detail["source"], detail["probe_none"], detail["probe_plain"])
+    fill = views[0] if (views[0] is not None and views[0] == views[1] == views[2]) else None
+    detail["fill"] = fill
+    return fill, detail
+
+
+CLAIMED_FILL = "ones"       # the rule the theorems of Props/C01.v / Props/C02.v on n-d values (nselect, nsem) are about
+
+
 def one_sided_trace(case, observed):
     """a call torch accepts in which one side has weights and the other has none, shapes and mask otherwise inside the contract: the entries
     taken from the side WITHOUT weight (all of them valid there) whose weight in the result is 0 — they are masked by the weight of the
@@ -1849,54 +1922,90 @@ def one_sided_trace(case, observed):
     return out
 
 
-def select_case_coq(case, observed):
+def select_case_coq(case, observed, fill="ones"):
     obs = "None" if observed is None else f"(Some {nval_coq(observed)})"
     return (f"({nmask_coq(case['mask'], case['rb'])}, {nval_coq(case['old'])}, {nval_coq(case['cur'])}, {obs}, "
-            f"{'true' if select_contract(case['old'], case['cur'], case['mask'], case['rb']) else 'false'})")
+            f"{'true' if select_contract(case['old'], case['cur'], case['mask'], case['rb'], fill) else 'false'})")
+
+
+SELECT_CHECKER = {"ones": "check_nselect", "other": "check_nselect_old"}
+
+
+def settle_select_variant(run, report_tie=True):
+    """recognise the rule of `_select` for a side without weights (fail closed); returns the variant the tie is made with"""
+    fill, detail = detect_select_fill_variant()
+    run.extra["select_fill_variant"] = detail
+    run.count("select_fill_variant", {"ones": "a side without weights is fully weighted: torch.ones_like (since the repair)",
+                                      "other": "a side without weights takes the OTHER side's weight (before the repair)", None: "not recognised"}[fill])
+    if fill is None:
+        run.broken("translate:_select", "the rule `_select` applies to a side WITHOUT weights was not recognised (source shape and probes on a real State "
+                   f"must agree): {json_key(detail)}", kind="broken-translation")
+        return CLAIMED_FILL
+    if fill != CLAIMED_FILL and report_tie:
+        run.broken("tie:_select", "`_select` of the tree under test gives a side without weights the OTHER side's weight (the rule before the repair): that is "
+                   "not a selection, F_mix does not hold for pairs of different kinds and the theorems of Props/C02.v on n-d values (nselect, nsem: a side "
+                   "without weights is fully weighted) do not describe this code.  The tie of this run is made against nselect_torch_old / nselect_old so "
+                   "that the search reports the changed row itself.", kind="broken-correspondence")
+    return fill
 
 
 def directed_select(run):
-    """the tie of `nselect_torch` / `nselect` (State/StateNdExec.v) with `State.revert` + `_select`, and the implementation-side oracle
-    for the calls inside the contract (rows / last-axis entries computed on nested lists)"""
+    """the tie of `nselect_torch` / `nselect` (State/StateNdExec.v; `nselect_torch_old` / `nselect_old` when the tree under test still has the
+    old rule for a side without weights) with `State.revert` + `_select`, and the implementation-side oracle for the calls inside the contract
+    (rows / last-axis entries computed on nested lists; a side without weights is fully weighted)"""
+    fill = settle_select_variant(run)
     cases = select_cases(run.rng("directed-select"))
     coq, stats = [], {}
+    reported = False
     for c in cases:
         observed, exc, fork_none = exec_select(c)
-        inside = select_contract(c["old"], c["cur"], c["mask"], c["rb"])
+        inside = select_contract(c["old"], c["cur"], c["mask"], c["rb"], "ones")
         shape = nest_shape(c["old"].get("t", c["old"].get("v")))
         key = (f"{'inside' if inside else 'outside'} the contract; {'refused: ' + exc if observed is None else 'accepted'}")
         stats[key] = stats.get(key, 0) + 1
         run.count("nd_select", f"shape {tuple(shape)}, right_broadcasting={c['rb']}: {key}")
+        if inside and nest_kind(c["old"]) != nest_kind(c["cur"]):
+            run.count("nd_select", "inside the contract, the two sides of different kinds (plain / weighted / weighted without weights)")
         run.case(("nd-select", json_key(c)), nontrivial=len(shape) >= 2 or nest_kind(c["old"]) != "plain")
-        coq.append(select_case_coq(c, observed))
+        coq.append(select_case_coq(c, observed, fill))
         masked = one_sided_trace(c, observed)
         if masked:
             run.count("nd_select", "one side without weight: valid entries masked by the other side's weight")
             run.fail(ONE_SIDED_SIG, "revert(subset) on a value that is a WeightedTensor WITH weights on one side and has no weight on the other "
-                     "(plain tensor or WeightedTensor(weight=None): every entry valid): `_select` (state.py:52-53) gives the rows taken from the side "
+                     "(plain tensor or WeightedTensor(weight=None): every entry valid): `_select` gives the rows taken from the side "
                      "without weight the weight of the OTHER side, so a reverted (or kept) row is not what it was: entries that were valid now have "
                      "weight 0, `weighted_value` and every cached value derived from it differ from the from-scratch evaluation "
-                     "(Coq witness: C02_one_sided_weight_refuted)", dict(select=c),
+                     "(Coq witness on the model of that rule: C02_one_sided_weight_old_refuted)", dict(select=c),
                      expected="the entries taken from the side without weight stay valid (weight 1 / True)",
                      observed=dict(value=observed, entries_masked_by_the_other_sides_weight=masked[:6]))
+            reported = True
         if inside:
             ref = select_reference(c["old"], c["cur"], c["mask"], c["rb"])
             got = None if observed is None else {k: observed.get(k) for k in ref}
-            if got != ref or not fork_none:
-                run.fail(SELECT_SIG, "revert(subset, right_broadcasting) on a value with a trailing shape held on both sides: the value left in the "
+            if (got != ref or not fork_none) and not masked:
+                # two sides of different kinds whose weights are wrong without a valid entry being masked (e.g. weight 3 instead of 1): the
+                # same defect as ONE_SIDED_SIG (the side without weights took the other side's weight)
+                one_sided = nest_kind(c["old"]) != nest_kind(c["cur"]) and fork_none and observed is not None
+                run.fail(ONE_SIDED_SIG if one_sided else SELECT_SIG, ("revert(subset) on a value that has weights on one side and none on the other (plain tensor or "
+                         "WeightedTensor(weight=None): every entry valid): the rows taken from the side without weights do not have weight 1 — `_select` gave them the "
+                         "OTHER side's weight (Coq witness on the model of that rule: C02_one_sided_weight_old_refuted).  " if one_sided else "") +
+                         "revert(subset, right_broadcasting) on a value with a trailing shape held on both sides: the value left in the "
                          "state is not 'the forked row where the subset says revert, the current row elsewhere' (right-broadcasting) / 'entry i of every "
                          "innermost vector from the forked side where subset[i]' (right_broadcasting=False), for the value or for the WEIGHT of a "
-                         "WeightedTensor; or the call was refused / left _last_fork in place", dict(select=c),
-                         expected=ref, observed=dict(value=observed, raised=exc, last_fork_cleared=fork_none))
-    bad = run.vm_bad_indices("nd_select", SELECT_HEADER, SELECT_CASE_TYPE, coq, "check_nselect", shard=400)
+                         "WeightedTensor (a side without weights counting as weight 1 everywhere); or the call was refused / left _last_fork in place",
+                         dict(select=c), expected=ref, observed=dict(value=observed, raised=exc, last_fork_cleared=fork_none))
+    bad = run.vm_bad_indices("nd_select", SELECT_HEADER, SELECT_CASE_TYPE, coq, SELECT_CHECKER[fill], shard=400)
     for i in (bad or [])[:3]:
         c = cases[i]
         observed, exc, _ = exec_select(c)
         run.fail("model-vs-code:nselect", "State.revert(subset, right_broadcasting) and the Coq model of `_select` on n-d values (nselect_torch: "
                  "broadcasting and refusals included; nselect: its restriction to the contract) disagree: the theorems on n-d values no longer "
-                 "speak about this code", dict(select=c), expected="nselect_torch / nselect (coq/tmp/cases_*_nd_select_*.v)",
+                 "speak about this code", dict(select=c), expected=f"{SELECT_CHECKER[fill]} (coq/tmp/cases_*_nd_select_*.v)",
                  observed=dict(value=observed, raised=exc), kind="broken-correspondence")
-    run.extra["nd_select_cases"] = dict(n=len(cases), by_outcome=stats)
+    run.extra["nd_select_cases"] = dict(n=len(cases), by_outcome=stats, model_variant=fill)
+    if fill == "other" and not reported:
+        run.broken("generator:nd-select-shape", "the tree under test has the old rule of `_select` but no directed call shows a valid entry masked by the "
+                   "other side's weight", kind="broken-correspondence")
     if not any(k.startswith("inside") and "accepted" in k for k in stats) or not any("refused: AssertionError" in k for k in stats) \
             or not any("refused: RuntimeError" in k for k in stats) or not any(k.startswith("outside") and "accepted" in k for k in stats):
         run.broken("generator:nd-select-shape", f"the directed revert calls no longer reach every outcome class: {stats}", kind="broken-correspondence")
